@@ -934,6 +934,7 @@ func c35(r *vkit.Run) {
 			r.Sample(fmt.Sprint(cs.Ops))
 		}
 	})
+	c35InFlight(r)
 	if r.Counter("exp:REJECT") == 0 || r.Counter("exp:CONN") == 0 || r.Counter("exp:LEGAL") == 0 {
 		r.Inconclusive("C35: an expectation class was never generated")
 	}
